@@ -10,7 +10,7 @@ use crate::{
         ArmorOptions, SignedPublicKey,
     },
     crypto::hash::KnownDigest,
-    errors::{ensure, Result},
+    errors::{bail, ensure, Result},
     packet::{self, Packet, PacketTrait, SignatureType},
     ser::Serialize,
     types::{Imprint, Tag, VerifyingKey},
@@ -250,6 +250,15 @@ impl SignedSecretSubKey {
 
         for sig in &self.signatures {
             sig.verify_subkey_binding(key, self.key.public_key())?;
+
+            // If the subkey is signing capable, check the embedded backward signature
+            // (same rule as for `SignedPublicSubKey`)
+            if sig.key_flags().sign() {
+                let Some(backsig) = sig.embedded_signature() else {
+                    bail!("missing embedded signature for signing capable subkey");
+                };
+                backsig.verify_primary_key_binding(self.key.public_key(), key)?;
+            }
         }
 
         Ok(())
